@@ -119,9 +119,29 @@ class Mon:
                         break
                     except UnicodeDecodeError:
                         continue
+            # shortest word accepted from each state of greenery's own fsm (None: a dead state), by backward breadth-first search
+            def pick(k, row):
+                if isinstance(k, str):
+                    return k
+                return next(c for c in 'zqjxZQ~_0' if c not in row)          # a symbol standing for "anything else"
+            comp = {q: '' for q in f.finals}
+            changed = True
+            while changed:
+                changed = False
+                for q, row in f.map.items():
+                    for k, t in row.items():
+                        if t in comp:
+                            cand = pick(k, row) + comp[t]
+                            if q not in comp or len(cand) < len(comp[q]):
+                                comp[q] = cand
+                                changed = True
             st = f.initial
             for i in range(len(w) + 1):
                 if (st in f.finals) != (cre.fullmatch(w[:i]) is not None):
+                    return True
+                # a concrete word that greenery's fsm accepts and the standard semantics (re) rejects: the prefix is live for
+                # greenery only.  Demonstrated by the word itself, independent of the harness' own oracle.
+                if st in comp and cre.fullmatch(w[:i] + comp[st]) is None:
                     return True
                 if i < len(w):
                     row = f.map[st]
